@@ -37,7 +37,11 @@ class Budgeted(object):
     def _deaths(self):
         if self.used['die'] >= self.budgets.get('die', 0):
             return []
-        return deaths(self.world, self.statuses)
+        evs = deaths(self.world, self.statuses)
+        only = getattr(self.world, 'deaths_only', None)
+        if only:
+            evs = [e for e in evs if any(('(%s#' % w) in e.label for w in only)]
+        return evs
 
     def _kpoint(self, name, pid):
         if not (self.open and self.kpoints):
